@@ -126,3 +126,63 @@ package extendeddaemonsetreplicaset
 //@   ensures [C09,C11] pod-operations-come-before-the-status-write: forall k int, j int :: lognew(k) && lognew(j) && logverb(k) == "StatusUpdate"
 //@             && (logverb(j) == "Create" || logverb(j) == "Delete") ==> j < k
 //@   ensures [C11] at-most-one-status-write-and-it-is-last: forall k int :: lognew(k) && logverb(k) == "StatusUpdate" ==> k == loglen() - 1
+//@
+//@ import utils "github.com/DataDog/extendeddaemonset/pkg/controller/utils"
+//@
+// Metric generators: the function literal stored next to Name: "<metric>" in generateMetricFamilies is addressed as
+// generateMetricFamilies@<metric>, independent of its position.
+//@ func generateMetricFamilies@ers_status_desired
+//@   requires typeof(obj) == typeid("*v1.ExtendedDaemonSetReplicaSet") && ifaceval(obj) != nil
+//@   modifies nothing
+//@   ensures [C20] one-series: result != nil && len(result.Metrics) == 1 && result.Metrics[0] != nil
+//@   ensures [C20] reports-the-status-field: result.Metrics[0].Value == real(cast(ifaceval(obj), "*v1.ExtendedDaemonSetReplicaSet").Status.Desired)
+//@   ensures [C20] labelled-with-namespace-and-name: len(result.Metrics[0].LabelKeys) >= 2 && len(result.Metrics[0].LabelValues) == len(result.Metrics[0].LabelKeys)
+//@             && result.Metrics[0].LabelKeys[0] == "namespace" && result.Metrics[0].LabelKeys[1] == "name"
+//@             && result.Metrics[0].LabelValues[0] == cast(ifaceval(obj), "*v1.ExtendedDaemonSetReplicaSet").ObjectMeta.Namespace && result.Metrics[0].LabelValues[1] == cast(ifaceval(obj), "*v1.ExtendedDaemonSetReplicaSet").ObjectMeta.Name
+//@ func generateMetricFamilies@ers_status_current
+//@   requires typeof(obj) == typeid("*v1.ExtendedDaemonSetReplicaSet") && ifaceval(obj) != nil
+//@   modifies nothing
+//@   ensures [C20] one-series: result != nil && len(result.Metrics) == 1 && result.Metrics[0] != nil
+//@   ensures [C20] reports-the-status-field: result.Metrics[0].Value == real(cast(ifaceval(obj), "*v1.ExtendedDaemonSetReplicaSet").Status.Current)
+//@   ensures [C20] labelled-with-namespace-and-name: len(result.Metrics[0].LabelKeys) >= 2 && len(result.Metrics[0].LabelValues) == len(result.Metrics[0].LabelKeys)
+//@             && result.Metrics[0].LabelKeys[0] == "namespace" && result.Metrics[0].LabelKeys[1] == "name"
+//@             && result.Metrics[0].LabelValues[0] == cast(ifaceval(obj), "*v1.ExtendedDaemonSetReplicaSet").ObjectMeta.Namespace && result.Metrics[0].LabelValues[1] == cast(ifaceval(obj), "*v1.ExtendedDaemonSetReplicaSet").ObjectMeta.Name
+//@ func generateMetricFamilies@ers_status_ready
+//@   requires typeof(obj) == typeid("*v1.ExtendedDaemonSetReplicaSet") && ifaceval(obj) != nil
+//@   modifies nothing
+//@   ensures [C20] one-series: result != nil && len(result.Metrics) == 1 && result.Metrics[0] != nil
+//@   ensures [C20] reports-the-status-field: result.Metrics[0].Value == real(cast(ifaceval(obj), "*v1.ExtendedDaemonSetReplicaSet").Status.Ready)
+//@   ensures [C20] labelled-with-namespace-and-name: len(result.Metrics[0].LabelKeys) >= 2 && len(result.Metrics[0].LabelValues) == len(result.Metrics[0].LabelKeys)
+//@             && result.Metrics[0].LabelKeys[0] == "namespace" && result.Metrics[0].LabelKeys[1] == "name"
+//@             && result.Metrics[0].LabelValues[0] == cast(ifaceval(obj), "*v1.ExtendedDaemonSetReplicaSet").ObjectMeta.Namespace && result.Metrics[0].LabelValues[1] == cast(ifaceval(obj), "*v1.ExtendedDaemonSetReplicaSet").ObjectMeta.Name
+//@ func generateMetricFamilies@ers_status_available
+//@   requires typeof(obj) == typeid("*v1.ExtendedDaemonSetReplicaSet") && ifaceval(obj) != nil
+//@   modifies nothing
+//@   ensures [C20] one-series: result != nil && len(result.Metrics) == 1 && result.Metrics[0] != nil
+//@   ensures [C20] reports-the-status-field: result.Metrics[0].Value == real(cast(ifaceval(obj), "*v1.ExtendedDaemonSetReplicaSet").Status.Available)
+//@   ensures [C20] labelled-with-namespace-and-name: len(result.Metrics[0].LabelKeys) >= 2 && len(result.Metrics[0].LabelValues) == len(result.Metrics[0].LabelKeys)
+//@             && result.Metrics[0].LabelKeys[0] == "namespace" && result.Metrics[0].LabelKeys[1] == "name"
+//@             && result.Metrics[0].LabelValues[0] == cast(ifaceval(obj), "*v1.ExtendedDaemonSetReplicaSet").ObjectMeta.Namespace && result.Metrics[0].LabelValues[1] == cast(ifaceval(obj), "*v1.ExtendedDaemonSetReplicaSet").ObjectMeta.Name
+//@ func generateMetricFamilies@ers_status_ignored_unresponsive_nodes
+//@   requires typeof(obj) == typeid("*v1.ExtendedDaemonSetReplicaSet") && ifaceval(obj) != nil
+//@   modifies nothing
+//@   ensures [C20] one-series: result != nil && len(result.Metrics) == 1 && result.Metrics[0] != nil
+//@   ensures [C20] reports-the-status-field: result.Metrics[0].Value == real(cast(ifaceval(obj), "*v1.ExtendedDaemonSetReplicaSet").Status.IgnoredUnresponsiveNodes)
+//@   ensures [C20] labelled-with-namespace-and-name: len(result.Metrics[0].LabelKeys) >= 2 && len(result.Metrics[0].LabelValues) == len(result.Metrics[0].LabelKeys)
+//@             && result.Metrics[0].LabelKeys[0] == "namespace" && result.Metrics[0].LabelKeys[1] == "name"
+//@             && result.Metrics[0].LabelValues[0] == cast(ifaceval(obj), "*v1.ExtendedDaemonSetReplicaSet").ObjectMeta.Namespace && result.Metrics[0].LabelValues[1] == cast(ifaceval(obj), "*v1.ExtendedDaemonSetReplicaSet").ObjectMeta.Name
+//@ func generateMetricFamilies@ers_status_canary_failed
+//@   requires typeof(obj) == typeid("*v1.ExtendedDaemonSetReplicaSet") && ifaceval(obj) != nil
+//@   modifies nothing
+//@   ensures [C20] one-series: result != nil && len(result.Metrics) == 1 && result.Metrics[0] != nil
+//@   ensures [C20] reports-the-status-field: result.Metrics[0].Value == ite(conditions.IsConditionTrue(&cast(ifaceval(obj), "*v1.ExtendedDaemonSetReplicaSet").Status, v1.ConditionTypeCanaryFailed), real(1), real(0))
+//@   ensures [C20] labelled-with-namespace-and-name: len(result.Metrics[0].LabelKeys) >= 2 && len(result.Metrics[0].LabelValues) == len(result.Metrics[0].LabelKeys)
+//@             && result.Metrics[0].LabelKeys[0] == "namespace" && result.Metrics[0].LabelKeys[1] == "name"
+//@             && result.Metrics[0].LabelValues[0] == cast(ifaceval(obj), "*v1.ExtendedDaemonSetReplicaSet").ObjectMeta.Namespace && result.Metrics[0].LabelValues[1] == cast(ifaceval(obj), "*v1.ExtendedDaemonSetReplicaSet").ObjectMeta.Name
+//@ func generateMetricFamilies@ers_labels
+//@   requires typeof(obj) == typeid("*v1.ExtendedDaemonSetReplicaSet") && ifaceval(obj) != nil
+//@   modifies nothing
+//@   ensures [C20] one-series: result != nil && len(result.Metrics) == 1 && result.Metrics[0] != nil && result.Metrics[0].Value == real(1)
+//@   ensures [C20] as-many-keys-as-values: len(result.Metrics[0].LabelKeys) == 2 + len(cast(ifaceval(obj), "*v1.ExtendedDaemonSetReplicaSet").ObjectMeta.Labels) && len(result.Metrics[0].LabelValues) == len(result.Metrics[0].LabelKeys)
+//@   ensures [C20] label-value-belongs-to-its-key: forall j int :: 0 <= j && j < len(cast(ifaceval(obj), "*v1.ExtendedDaemonSetReplicaSet").ObjectMeta.Labels) ==>
+//@             exists key string :: (key in cast(ifaceval(obj), "*v1.ExtendedDaemonSetReplicaSet").ObjectMeta.Labels) && result.Metrics[0].LabelKeys[2 + j] == utils.sanitizeLabelName(key) && result.Metrics[0].LabelValues[2 + j] == cast(ifaceval(obj), "*v1.ExtendedDaemonSetReplicaSet").ObjectMeta.Labels[key]
